@@ -639,7 +639,7 @@ Proof.
 Qed.
 #[export] Hint Resolve be_kq_sh_go : be_kq.
 Lemma be_kq_w_shrink : forall Qv stop0, be_kq Qv (w_shrink stop0).
-Proof. intros. unfold w_shrink. fold (be_sh_go stop0). be_kq_tac. Qed.
+Proof. intros. unfold w_shrink, w_shrink_core. fold (be_sh_go stop0). be_kq_tac. Qed.
 #[export] Hint Resolve be_kq_w_reset be_kq_w_shrink : be_kq.
 
 Lemma be_kq_resolveH : forall Qv h, be_kq Qv (resolveH h).
@@ -1827,7 +1827,7 @@ Proof.
 Qed.
 #[export] Hint Resolve be_hom_sh_go : be_hom.
 Lemma be_hom_w_shrink : forall stop0, be_hom eq (w_shrink stop0) (w_shrink stop0).
-Proof. intros. unfold w_shrink. fold (be_sh_go stop0). be_hom_tac. Qed.
+Proof. intros. unfold w_shrink, w_shrink_core. fold (be_sh_go stop0). be_hom_tac. Qed.
 #[export] Hint Resolve be_hom_w_reset be_hom_w_shrink : be_hom.
 
 Lemma be_hom_getQ : forall qi, be_hom eq (getQ qi) (getQ qi).
